@@ -40,6 +40,20 @@ Accesses(op) ==
      [] op = "gen_newtype" -> <<Acc("L", "typeInfosMu"), Acc("R", "typeInfos"), Acc("W", "typeInfos"), Acc("U", "typeInfosMu")>>
      [] op = "gen_sametype" -> <<Acc("L", "typeInfosMu"), Acc("R", "typeInfos"), Acc("U", "typeInfosMu")>>
 
+(* The verdict the documents of the catalogue prescribe for variant v (1..3) of each validating  *)
+(* operation, whoever else uses the document at the same time: the default engine is case        *)
+(* sensitive, a caller's own engine (case-insensitive in the catalogue) is used for that caller  *)
+(* only.  "other": the operation reports no accept/reject verdict.                               *)
+Verdicts(op) ==
+   CASE op = "vreq_params" -> <<"ok", "reject", "ok">>
+     [] op = "vreq_body_pattern" -> <<"ok", "reject", "reject">>                \* matching / foreign / upper-cased text
+     [] op = "vreq_body_pattern_customregex" -> <<"ok", "reject", "ok">>        \* upper-cased / foreign / matching text
+     [] op = "vreq_body_unique" -> <<"reject", "ok", "reject">>
+     [] op = "vreq_body_defaults" -> <<"ok", "ok", "ok">>
+     [] op = "vresp" -> <<"ok", "reject", "ok">>
+     [] op = "visitjson" -> <<"ok", "reject", "ok">>
+     [] OTHER -> <<"other", "other", "other">>
+
 VARIABLES prog,   \* prog[g] = the accesses goroutine g still has to make
           held    \* held[g] = set of mutexes goroutine g holds
 vars == <<prog, held>>
